@@ -3,7 +3,9 @@
 TLC enumerates (spec/Gen_Project.tla) all 512 digraphs on three types x every non-empty root set, and three base
 shapes (chain, diamond, fan-out) with one edge realised through each of 20 constructor contexts, rooted at each
 site (parameter, return, channel message, event payload, Result error arm) through 6 root contexts, with a
-non-serde / serde unreachable decoy.  Each graph becomes real structs and commands; the real CLI generates both
+non-serde / serde unreachable decoy, and five shapes (chain, diamond, fan-out, cycle, two roots over one child)
+under all 256 assignments of the command file and the three types to four files whose path order is the analyser's
+walk order (quick: one assignment per relative order).  Each graph becomes real structs and commands; the real CLI generates both
 modes; Trace_Project.tla judges Project!C07_Holds: declared type names = Reachable(types, roots), once each.
 """
 import json
@@ -37,7 +39,11 @@ def run(tier, seed):
         missing = w[1] if len(w) > 1 else ""
         extra = w[3] if len(w) > 3 else ""
         what = "missing" if missing not in ("{}", "") else ("extra" if extra not in ("{}", "") else "duplicate")
-        verdicts.reject("mode=%s root=%s/%s edges=%s what=%s" % (r["mode"], root["site"], root["ctx"], ",".join(ectx), what),
+        lay = ""
+        if g.get("place") and len(g["place"]) > 1:
+            pl = g["place"]
+            lay = " layout=" + ("one-file" if len(set(pl.values())) == 1 else "multi-file")
+        verdicts.reject("mode=%s root=%s/%s edges=%s%s what=%s" % (r["mode"], root["site"], root["ctx"], ",".join(ectx), lay, what),
                         "missing=%s extra=%s" % (_strip(missing), _strip(extra)),
                         "type graph %s rooted at %s via %s (mode %s): declared %s but reachable differs: missing %s extra %s"
                         % (json.dumps({n: [(e["ctx"], e["to"]) for e in g["edges"][n]] for n in g["edges"]}), root["site"], root["ctx"],
@@ -47,8 +53,8 @@ def run(tier, seed):
     C.write_evidence(PROP, tier, seed, "exploration", {
         "evaluations": len(events),
         "distinct_nontrivial": len({json.dumps(c, sort_keys=True) for c in cases if any(c["edges"][n] for n in c["edges"])}),
-        "rule": "one evaluation = one TLC-enumerated type graph in one mode; %d graphs of %d + %d enumerated; non-trivial = at least one edge"
-                % (len(cases), total[0], total[1]),
+        "rule": "one evaluation = one TLC-enumerated type graph in one mode; %d graphs of %d (all digraphs) + %d (edge contexts) + %d (file layouts) enumerated; non-trivial = at least one edge"
+                % (len(cases), total[0], total[1], total[2]),
         "samples": [{"edges": {n: [(e["ctx"], e["to"]) for e in c["edges"][n]] for n in c["edges"]}, "roots": [(r["site"], r["ctx"], r["to"]) for r in c["roots"]]} for c in cases[:: max(1, len(cases) // 5)][:5]],
         "traces_validated_against_impl": len(events),
         "known_findings_matched": len(verdicts.known_hit),
